@@ -1,4 +1,4 @@
-import TinodeVerif.Model.TopicP2P
+import TinodeVerif.Model.TopicChan
 import TinodeVerif.Driver.Wire
 /-! Driver for the world stream (`TestVerifWorld`): one op per line, one output line per op, rendered exactly like the
 Go harness renders the real frames and state. -/
@@ -65,8 +65,49 @@ def renameFor (uid : Uid) (f : String) : String :=
       | _ => w
     else w))
 
-def render (st : WSt) (c : Ctx) : String :=
-  let frames := st.w.sess.flatMap (fun s => (c.frames.filter (·.1 = s.sid)).map (fun (sid, f) => s!"{sid}<-{renameFor s.uid f}"))
+/-- how a request addressed its topic -/
+structure Addr where
+  actor : Sid := ""
+  viaChn : Bool := false
+  op : String := ""
+  what : String := ""
+
+/-- the `chn` spelling: a frame which goes to a session attached to the topic as a channel reader (before or after the request),
+or which answers a request made under the `chn` spelling, names the topic `chn:T`; a {data} frame for a channel reader carries
+no author (prepareBroadcastableMessage, replyGetData, Topic.original) -/
+def chanFor (pre post : World) (ad : Addr) (sid : Sid) (f : String) : String :=
+  let ws := f.splitOn " "
+  let kind := ws.headD ""
+  let code := ws.getD 1 ""
+  let idx := if kind = "ctrl" then 2 else 1
+  let tn := ws.getD idx ""
+  if !tn.startsWith "T" then f else
+  let uid := match post.sess? sid with | some s => s.uid | none => ""
+  let isRd (w : World) : Bool := match w.live? tn with
+    | some t => (match t.pud? uid with | some p => p.isChan | none => false)
+    | none => false
+  -- the name under which the user knows the topic (Topic.original): `chn` for a channel reader
+  let userChn := isRd pre || isRd post
+  -- the session is attached as a channel reader (perSessionData.isChanSub)
+  let sessChn := (match pre.live? tn with | some t => t.isChanSess sid | none => false) ||
+                 (match post.live? tn with | some t => t.isChanSess sid | none => false)
+  let mine := sid = ad.actor
+  let useChn :=
+    if kind = "ctrl" ∧ code = "205" then false          -- an evicted reader is told under the group name: the record is dropped first
+    else if (kind = "ctrl" ∨ kind = "meta") ∧ mine then
+      if ad.op = "pub" ∧ code ≠ "409" then userChn      -- {pub} answers under the publisher's name for the topic
+      else if ad.op = "get" ∧ ad.what = "del" ∧ (kind = "meta" ∨ code = "204") then userChn
+      else if ad.op = "sub" ∧ code = "200" then isRd post
+      else ad.viaChn                                       -- everything else echoes the spelling of the request
+    else sessChn || userChn                                -- broadcast: a reader's session, or a session of a user cached as a reader
+  let blank := kind = "data" ∧ (if ad.op = "get" ∧ mine then ad.viaChn else sessChn)
+  let ws := if useChn then ws.set idx ("chn:" ++ tn) else ws
+  let ws := if blank then ws.map (fun w => if w.startsWith "from=" then "from=-" else w) else ws
+  " ".intercalate ws
+
+def render (pre : World) (st : WSt) (c : Ctx) (ad : Addr := {}) : String :=
+  let frames := st.w.sess.flatMap (fun s => (c.frames.filter (·.1 = s.sid)).map (fun (sid, f) =>
+    s!"{sid}<-{chanFor pre c.w ad sid (renameFor s.uid f)}"))
   -- sessions created before this op only; all frames belong to known sessions
   let parts := frames ++ c.pushes ++ [s!"calls={",".intercalate c.calls}"] ++ cacheDigest c.w ++ storeDigest c.w ++ sessDigest c.w
   " | ".intercalate parts
@@ -103,47 +144,63 @@ def step (st : WSt) (ws : List String) : Option (WSt × String) :=
     let store := st.snap.getD st.w.store
     let w := { st.w with store := store, live := [], sess := st.w.sess.map (fun s => { s with subs := [] }) }
     let st := { st with w := w, snap := none }
-    some (st, render st { w := w })
+    some (st, render w st { w := w })
   | "unload" :: t :: _ =>
     let c : Ctx := { w := st.w }
     let (c, msg) := c.opUnload t
     let c := c.deliverRouted
     if msg ≠ "" then some ({ st with snap := none }, msg) else
+    let pre := st.w
     let st := { st with w := c.w, snap := none }
-    some (st, render st c)
+    some (st, render pre st c)
   | op :: sid :: rest =>
     match st.w.sess? sid with
     | none => none
     | some s =>
       let m := kv rest
+      let viaChn : Bool := match rest with | t :: _ => t.startsWith "chn:" | [] => false
       let c0 : Ctx := { w := st.w, failK := st.failK, crashK := st.crashK }
       let c : Option Ctx :=
         match resolveActor c0 s (parseAs m) with
         | .error c => some c
         | .ok a =>
           let isUser (t : String) : Bool := t.startsWith "U"
+          -- a channel-enabled topic (addressed by either spelling) is served by the channel handlers
+          let rest := match rest with
+            | t :: more => (if t.startsWith "chn:" then (t.drop 4).toString else t) :: more
+            | [] => []
+          let isChanT : Bool := viaChn || (match rest with | t :: _ => st.w.isChanTopic t | [] => false)
           match op, rest with
           | "newgrp", _ =>
-            let o : NewGrpOpts := { auth := optStr (kvGet m "auth"), anon := optStr (kvGet m "anon"), want := kvGet m "want", priv := privArg (kvGet m "priv"), pub := privArg (kvGet m "pub") }
+            let o : NewGrpOpts := { auth := optStr (kvGet m "auth"), anon := optStr (kvGet m "anon"), want := kvGet m "want", priv := privArg (kvGet m "priv"), pub := privArg (kvGet m "pub"), chan := kvGet m "chan" = "1" }
             some (c0.opNewGrp a o)
           | "sub", t :: _ =>
             if isUser t then some (c0.opSubP2P a t (optStr (kvGet m "mode")) (privArg (kvGet m "priv")) (kvGet m "user"))
+            else if isChanT then some (c0.opSubC a t viaChn (optStr (kvGet m "mode")) (privArg (kvGet m "priv")) (kvGet m "user" ≠ ""))
             else some (c0.opSub a t (optStr (kvGet m "mode")) (privArg (kvGet m "priv")) (kvGet m "user" ≠ ""))
           | "leave", t :: _ =>
-            if isUser t then some (c0.opLeaveP2P a t (kvGet m "unsub" = "1")) else some (c0.opLeave a t (kvGet m "unsub" = "1"))
+            if isUser t then some (c0.opLeaveP2P a t (kvGet m "unsub" = "1"))
+            else if isChanT then some (c0.opLeaveC a t viaChn (kvGet m "unsub" = "1"))
+            else some (c0.opLeave a t (kvGet m "unsub" = "1"))
           | "pub", t :: content :: _ =>
             let tn := if isUser t then p2pKey a.uid t else t
             if isUser t ∧ t = a.uid then some (c0.emit a.sid (ctrl 403 tn)) else
+            if isChanT then some (c0.opPubC a tn content (parseHead (kvGet m "head")) (kvGet m "noecho" = "1")) else
             some (c0.opPub a tn content (parseHead (kvGet m "head")) (kvGet m "noecho" = "1"))
           | "note", t :: what :: seq :: _ =>
-            if isUser t then (decInt seq).map (fun q => c0.opNoteP2P a t what q) else (decInt seq).map (fun q => c0.opNote a t what q)
+            if isUser t then (decInt seq).map (fun q => c0.opNoteP2P a t what q)
+            else if isChanT then (decInt seq).map (fun q => c0.opNoteC a t viaChn what q)
+            else (decInt seq).map (fun q => c0.opNote a t what q)
           | "get", t :: what :: _ =>
             let since := (decInt (kvGet m "since")).getD 0
             let before := (decInt (kvGet m "before")).getD 0
             let limit := (decInt (kvGet m "limit")).getD 0
-            if isUser t then some (c0.opGetP2P a t what since before limit) else some (c0.opGet a t what since before limit)
+            if isUser t then some (c0.opGetP2P a t what since before limit)
+            else if isChanT then some (c0.opGetC a t viaChn what since before limit)
+            else some (c0.opGet a t what since before limit)
           | "setsub", t :: _ =>
             if isUser t then some (c0.opSetSubP2P a t (kvGet m "user") (optStr (kvGet m "mode")))
+            else if isChanT then some (c0.opSetSubC a t viaChn (kvGet m "user") (optStr (kvGet m "mode")))
             else some (c0.opSetSub a t (kvGet m "user") (optStr (kvGet m "mode")))
           | "setdesc", t :: _ =>
             let o : SetDescOpts := { auth := optStr (kvGet m "auth"), anon := optStr (kvGet m "anon"), pub := privArg (kvGet m "pub"), priv := privArg (kvGet m "priv") }
@@ -154,9 +211,11 @@ def step (st : WSt) (ws : List String) : Option (WSt × String) :=
             some (c0.opDelMsg a tn (parseRangesArg rs) (kvGet m "hard" = "1"))
           | "delsub", t :: u :: _ => if isUser t then some (c0.opDelSubP2P a t) else some (c0.opDelSub a t u)
           | "deltopic", t :: _ =>
-            if isUser t then some (c0.opDelTopicP2P a t (kvGet m "hard" = "1")) else some (c0.opDelTopic a t (kvGet m "hard" = "1"))
-          | "fg", _ => some (c0.opFgAll sid)
-          | "drop", _ => some (c0.opDropAll sid)
+            if isUser t then some (c0.opDelTopicP2P a t (kvGet m "hard" = "1"))
+            else if isChanT then some (c0.opDelTopicC a t viaChn (kvGet m "hard" = "1"))
+            else some (c0.opDelTopic a t (kvGet m "hard" = "1"))
+          | "fg", _ => some (c0.opFgAllC sid)
+          | "drop", _ => some (c0.opDropAllC sid)
           | _, _ => none
       match c with
       | none => none
@@ -165,7 +224,7 @@ def step (st : WSt) (ws : List String) : Option (WSt × String) :=
         -- the order in which the topics learn about a dropped connection is not defined: frames are compared sorted
         let c := if op = "drop" then { c with frames := c.frames.mergeSort (fun a b => s!"{a.1}<-{a.2}" ≤ s!"{b.1}<-{b.2}") } else c
         let stOut := { st with w := c.w }
-        let line := render stOut c
+        let line := render st.w stOut c { actor := sid, viaChn := viaChn, op := op, what := (rest.getD 1 "") }
         -- the crash snapshot, if one was taken during this op, is what an immediately following `restart` restores
         some ({ w := c.w, failK := 0, crashK := 0, snap := c.snap }, line)
   | _ => none
